@@ -434,7 +434,9 @@ func avpsWithPath(avps []*AVP, path []uint32) []*AVP {
 func (m *Message) FindAVPs(code interface{}, vendorID uint32) ([]*AVP, error) {
 	dictAVP, err := m.Dictionary().FindAVPWithVendor(m.Header.ApplicationID, code, vendorID)
 
-	if err != nil {
+	// A numeric code the dictionary does not define yields a placeholder
+	// together with an error; the message can still be searched for it.
+	if err != nil && dictAVP == nil {
 		return nil, err
 	}
 
@@ -453,7 +455,9 @@ func (m *Message) FindAVPs(code interface{}, vendorID uint32) ([]*AVP, error) {
 func (m *Message) FindAVP(code interface{}, vendorID uint32) (*AVP, error) {
 	dictAVP, err := m.Dictionary().FindAVPWithVendor(m.Header.ApplicationID, code, vendorID)
 
-	if err != nil {
+	// A numeric code the dictionary does not define yields a placeholder
+	// together with an error; the message can still be searched for it.
+	if err != nil && dictAVP == nil {
 		return nil, err
 	}
 
@@ -479,7 +483,7 @@ func (m *Message) FindAVPsWithPath(path []interface{}, vendorID uint32) ([]*AVP,
 	pathCodes := make([]uint32, len(path))
 	for i, pathCode := range path {
 		dictAVP, err := m.Dictionary().FindAVPWithVendor(m.Header.ApplicationID, pathCode, vendorID)
-		if err != nil {
+		if err != nil && dictAVP == nil {
 			return nil, err
 		}
 		pathCodes[i] = dictAVP.Code
